@@ -12,14 +12,14 @@ incs=[]; cmps=[]
 common=prog.modules['openskill.models.weng_lin.common']
 def setup(w):
     I=w.I
-    I.opaque_funcs={common.funcs[n].fq for n in ('v','w','vt','wt','phi_major')}
+    I.opaque_funcs={common.funcs[n].fq for n in ('v','w','vt','wt','phi_major')}; I.number_locals=True
     def aug(I, st, cur, rhs, v, state):
         import ast
         tag=f"ACC:{I.cur_func().split('::')[-1]}:{ast.unparse(st.target)}"
         incs.append((tag,type(st.op).__name__,rhs,st.lineno))
         if isinstance(v,Num): return replace(v,prov=v.prov|{tag})
     def compare(I,node,op,a,b):
-        if a.sym and b.sym and a.sym[0] in ('rd','elem') and b.sym[0]==a.sym[0] and a.sym[1]==b.sym[1]:
+        if a.sym and b.sym:
             cmps.append((I.cur_func().split('::')[-1],type(op).__name__,a.sym,b.sym))
     I.hooks.update(aug=aug,compare=compare)
     if rel:
